@@ -298,6 +298,8 @@ struct Acc {
     /// max over cases of peak / bound(len), in 1/1000 units
     max_fraction_of_bound: u64,
     reenc_err: u64,
+    /// bases that are encodings of well-formed values and are rejected by from_bytes
+    valid_rejected: u64,
     findings: Vec<Finding>,
     more: BTreeMap<String, u64>,
 }
@@ -381,6 +383,9 @@ fn judge(e: &TypeEntry, base: &Base, base_ok: bool, kind: MutKind, b: &[u8], p: 
             MutKind::Append => bad.push(("length/trailing-accepted".into(), format!("{who} accepts an accepted encoding followed by one more byte"))),
             _ => {}
         }
+    }
+    if kind == MutKind::Base && base.from_wellformed && p.un == Dec::Err {
+        acc.valid_rejected += 1;
     }
     let ki = kind_idx(kind);
     acc.k[ki][if p.un == Dec::Ok { 1 } else if p.tr == Dec::Ok { 2 } else { 0 }] += 1;
@@ -502,6 +507,7 @@ fn run(rep: &Report) {
             }
         }
         tot.reenc_err += a.reenc_err;
+        tot.valid_rejected += a.valid_rejected;
         tot.max_peak = tot.max_peak.max(a.max_peak);
         for (sig, n) in a.more {
             *tot.more.entry(sig).or_insert(0) += n;
@@ -527,6 +533,11 @@ fn run(rep: &Report) {
             o["max_peak_live_bytes_in_one_decode"] = json!(peak);
             o["max_peak_as_fraction_of_bound"] = json!(ratio as f64 / 1000.0);
         }
+    }
+    if tot.valid_rejected > 0 {
+        // not a C14 violation (an error is a permitted answer) but the neighbourhoods explored are
+        // then anchored on strings the decoder does not accept: the exploration is not meaningful
+        rep.machinery_error(&format!("{} base encodings produced by to_bytes of well-formed values are rejected by from_bytes (a C13 violation); the C14 byte neighbourhoods are anchored on them", tot.valid_rejected));
     }
     rep.extra("per_type", Value::Object(per_type));
     rep.extra("max_peak_live_bytes_in_one_decode", json!(tot.max_peak));
@@ -616,7 +627,7 @@ fn parent() -> ! {
     let len = c.get("len").cloned().unwrap_or_default();
     let (sig, what) = match reason.as_str() {
         "oversize" => ("C14/alloc/oversize-request".to_string(), format!("a single allocation request of {} bytes (> 1 GiB) while decoding", c.get("size").cloned().unwrap_or_default())),
-        "hang" => ("C14/hang".to_string(), "the case did not finish within the watchdog limit".to_string()),
+        "hang" => ("C14/hang".to_string(), "the case did not finish within the watchdog limit; it was decoding".to_string()),
         other => (format!("C14/crash/{other}"), format!("the process was killed ({other}; {status}) while decoding")),
     };
     let detail = format!("type {tname}: {what} a {len}-byte input {}", if hexs.len() <= 400 { hexs.clone() } else { format!("{}..", &hexs[..400]) });
